@@ -51,7 +51,7 @@ def same_class(res, cls_name):
     return res["violation"] is not None and res["violation"]["class"] == cls_name
 
 
-def shrink(runner, sc, picks, cls_name, budget=120):
+def shrink(runner, sc, picks, cls_name, budget=160):
     """ddmin-style: schedule first, then structure, then arguments; a candidate is
     accepted only if the same violation class reproduces."""
     cur_sc, cur_picks = strip(sc), list(picks)
@@ -279,7 +279,7 @@ def run_check(prop, args, runner, make_case, runs, rule, nontrivial, components,
             raise HarnessError("violation %s (run %s) did not replay identically: %s" % (c, v["run_index"], path))
         print("VIOLATION property=%s replay=%s" % (prop, path))
         print("  class=%s detail=%s" % (c, v["violation"]["detail"]))
-        print("  preds=%s lines=%s" % (",".join(sorted(preds)), [l["text"] for l in v["scenario"].get("lines", [])]))
+        print("  preds=%s lines=%s" % (",".join(sorted(preds)), [(l.get("text") or "")[:90] for l in v["scenario"].get("lines", [])]))
     coverage = {
         "evaluations": len(results),
         "distinct_nontrivial": len(distinct),
